@@ -6,6 +6,7 @@ use std::collections::BTreeMap;
 use std::path::{Path, PathBuf};
 
 mod leaf;
+mod panics;
 mod tables;
 
 pub struct Out {
@@ -58,6 +59,7 @@ fn main() {
     let mut out = Out { files: BTreeMap::new(), untranslated: vec![] };
     leaf::run(&repo, &mut out);
     tables::run(&repo, &mut out);
+    panics::run(&repo, &mut out);
     for (name, content) in &out.files {
         write_if_changed(&outdir.join(name), content);
     }
